@@ -397,6 +397,28 @@ def run_case(case, R):
                 got2 = (c.port, c.db.host, c.db.debug)
                 R.check(got2 == want, "override", "shared-arguments", lambda: "parsed arguments reused for another configuration with ignore=%r: fields read %r, want %r" % (ign, got2, want))
                 R.check(cc.is_value_defined(c, "db.debug") == ("db.debug" not in names), "override", "shared-arguments:defined", lambda: "ignore=%r: db.debug user-defined=%r" % (ign, cc.is_value_defined(c, "db.debug")))
+            # keys that are identifiers starting with an underscore (declared by item assignment): options are generated
+            # for them like for any other key, and an override goes through the field, with its validation
+            us = cc.Schema()
+            us.db.host = cc.StringField(default="h")
+            us["db._timeout"] = cc.IntField(default=5, max=60)
+            us["_top"] = cc.IntField(default=1)
+            uparser = cc.generate_argparse_parser(us)
+            uopts = sorted(o for a in uparser._actions for o in a.option_strings if o not in ("-h", "--help"))
+            R.label("override:underscore-keys")
+            if R.check(uopts == ["---top", "--db--timeout", "--db-host"], "parser", "underscore-keys", lambda: "options for keys starting with an underscore: %r" % (uopts,)):
+                ucfg = us()
+                cc.cmdline_args_override(ucfg, uparser.parse_args(["--db--timeout", "7", "---top", "9"]))
+                seen = (ucfg["db._timeout"], ucfg["_top"], ucfg.to_tree())
+                R.check(seen == (7, 9, {"db": {"host": "h", "_timeout": 7}, "_top": 9}), "override", "underscore-keys",
+                        lambda: "--db--timeout 7 ---top 9: the configuration reads %r" % (seen,))
+                R.check(cc.is_value_defined(ucfg, "db._timeout") and not cc.is_value_defined(ucfg, "db.host"), "override", "underscore-keys:defined", "user-defined marks are off")
+                ucfg2 = us()
+                try:
+                    cc.cmdline_args_override(ucfg2, uparser.parse_args(["--db--timeout", "600"]))
+                    R.fail("override", "underscore-keys:invalid-accepted", "--db--timeout 600 (max 60) was accepted: %r" % (ucfg2.to_tree(),))
+                except cc.ValidationError:
+                    R.check(ucfg2["db._timeout"] == 5, "override", "underscore-keys:invalid-kept", "a rejected override changed the value")
         except Exception as exc:
             R.fail("override", "env-bound:raises", "override of env-bound fields raised %r" % (exc,))
         finally:
